@@ -87,8 +87,8 @@ class RecordingLogger:
         self.flushes += 1
 
 
-def build_actions(hist, rng, env, rich=None, admit=None):
-    """Model history -> concrete script actions (real targets, real values)."""
+def build_actions(hist, rng, env, rich=None, admit=None, force=None):
+    """Model history -> concrete script actions (real targets, real values); force: frame id -> target name."""
     acts, chosen = [], {}
 
     def val(tok):
@@ -100,6 +100,8 @@ def build_actions(hist, rng, env, rich=None, admit=None):
         op = h["op"]
         if op in ("Call", "Create"):
             t = rng.choice([x for x in env["targets"].values() if x["model"] == h["f"]])
+            if force and str(h["id"]) in force:
+                t = env["targets"][force[str(h["id"])]]
             chosen[h["id"]] = t
             v = val(h["v"])
             args, kwargs = [v], {}
@@ -138,7 +140,7 @@ def run_scenario(sc):
     S = script.S
     rng = random.Random(sc["seed"])
     admit = sc.get("admit")
-    acts, chosen = build_actions(sc["hist"], rng, env, sc.get("rich"), admit)
+    acts, chosen = build_actions(sc["hist"], rng, env, sc.get("rich"), admit, sc.get("force"))
     targets = {n: t["maker_f"] for n, t in env["targets"].items()}
     S.reset(acts, targets, absmodel.abs_value)
     reg = env["reg"] if admit is None else {c: (n, w and c.co_qualname in admit, m) for c, (n, w, m) in env["reg"].items()}
